@@ -7,7 +7,7 @@ package util
 // GetNode returns a node with that hash. Then whole tries built from operation histories are read
 // back from each store kind and must re-compute to the root they were saved under.
 // property: C14
-// scope: leaf/extension paths from {"", "1", "0a", "3a3a" (hex of ':'), 31 nibbles}, values from {nil, empty, "v", ":", "a:b::", "\x00\xff:\n", 300 bytes}, branches with every child subset of size 0,1,2,16 over positions {0,9,10,15} (and all 16), with and without value, origins {0,1,1<<40}, versions equal to the origin and bumped by 4/5/8 after creation; tries: all histories of <= 3 inserts/deletes over 5 paths
+// scope: leaf/extension paths from {"", "1", "0a", "3a3a" (hex of ':'), 31 nibbles}, values from {nil, empty, "v", ":", "a:b::", "\x00\xff:\n", 300 bytes}, branches with every child subset of size 0,1,2,16 over positions {0,9,10,15} (and all 16), with and without value, origins {0,1,1<<40}, versions equal to the origin and bumped by 4/5/8 after creation; a leaf and a branch with the largest value Insert admits (10 MiB and one byte less); tries: all histories of <= 3 inserts/deletes over 5 paths
 
 import (
 	"bytes"
@@ -68,10 +68,53 @@ func TestGocvBoundedC14(t *testing.T) {
 		if !bytes.Equal(cl.GetHashBytes(), h) || !bytes.Equal(cl.Encode(), enc) {
 			fail("%s: CloneNode changes hash or encoding", desc)
 		}
+		// the copy operations the state cache uses (Clone / CopyFrom by encode-decode)
+		if sv, ok := n.(statecache.Value); ok {
+			c2, ok := sv.Clone().(Node)
+			if !ok || !bytes.Equal(c2.GetHashBytes(), h) || !bytes.Equal(c2.Encode(), enc) {
+				fail("%s: Clone changes hash or encoding", desc)
+			}
+			var dst statecache.Value
+			switch n.(type) {
+			case *ValueNode:
+				dst = NewValueNode()
+			case *LeafNode:
+				dst = NewLeafNode(Path("0f"), Path("0f"), 99, &SecureSerializableValue{Buffer: []byte("other")})
+			case *FullNode:
+				fo := NewFullNode(&SecureSerializableValue{Buffer: []byte("other")})
+				fo.Children[5] = bytes.Repeat([]byte{0x77}, 32)
+				dst = fo
+			case *ExtensionNode:
+				dst = NewExtensionNode(Path("0f"), bytes.Repeat([]byte{0x77}, 32))
+			}
+			if dst != nil {
+				if !dst.CopyFrom(n) {
+					fail("%s: CopyFrom into a node of the same kind reports false", desc)
+				} else if dn := dst.(Node); !bytes.Equal(dn.GetHashBytes(), h) || !bytes.Equal(dn.Encode(), enc) {
+					fail("%s: after CopyFrom the destination has hash %x, the source %x", desc, dn.GetHashBytes(), h)
+				}
+			}
+		}
 		if _, isValue := n.(*ValueNode); isValue {
 			return // value nodes are embedded, not stored on their own
 		}
 		for name, db := range stores {
+			// batch interface as well (every other node, so that both entry points are used)
+			if cases%2 == 0 {
+				if err := db.MultiPutNode([]Key{h}, []Node{n}); err != nil {
+					fail("%s: MultiPutNode into the %s store: %v", desc, name, err)
+					continue
+				}
+				gots, err := db.MultiGetNode([]Key{h})
+				if err != nil || len(gots) != 1 || gots[0] == nil {
+					fail("%s: MultiGetNode from the %s store: %v (%d nodes)", desc, name, err, len(gots))
+					continue
+				}
+				if !bytes.Equal(gots[0].GetHashBytes(), h) || !bytes.Equal(gots[0].Encode(), enc) {
+					fail("%s: node read back (MultiGetNode) from the %s store under key %x re-computes to %x", desc, name, h, gots[0].GetHashBytes())
+				}
+				continue
+			}
 			if err := db.PutNode(h, n); err != nil {
 				fail("%s: PutNode into the %s store: %v", desc, name, err)
 				continue
@@ -144,6 +187,17 @@ func TestGocvBoundedC14(t *testing.T) {
 			check(fmt.Sprintf("extension (path %q, origin %d%s)", p, o, bump(en, o, 5)), en)
 		}
 	}
+	// the largest value Insert admits (MPTMaxAllowableNodeSize bytes, and one byte less): the encoded node
+	// is larger than the value by header, path, separators and child slots
+	for _, sz := range []int{MPTMaxAllowableNodeSize, MPTMaxAllowableNodeSize - 1} {
+		big := &SecureSerializableValue{Buffer: bytes.Repeat([]byte{0x5a}, sz)}
+		check(fmt.Sprintf("leaf (64-nibble path, value of %d bytes)", sz), NewLeafNode(Path(""), Path("0123456789abcdef0123456789abcdef0123456789abcdef0123456789abcdef"), 1, big))
+		bfn := NewFullNode(big)
+		bfn.SetOrigin(1)
+		bfn.Children[3] = key(0x11)
+		bfn.Children[12] = key(0x22)
+		check(fmt.Sprintf("branch (2 children, value of %d bytes)", sz), bfn)
+	}
 	// whole tries: every history, read back from each store kind alone
 	tpaths := []string{"", "12", "1234", "12ab", "5678"}
 	type op struct {
@@ -203,6 +257,59 @@ func TestGocvBoundedC14(t *testing.T) {
 						fail("history %v read back from the %s store: %v", seq, name, err)
 					}
 				}
+				// the same history with every operation at its own version and in its own store level (a new
+				// trie object with a fresh cache each time, as block after block does); the caller formats
+				// each path into one scratch buffer and wipes it after the call. Afterwards every level's own
+				// store must still hold each node under the hash of its content, and every earlier root
+				// must still be readable through its level.
+				type lvl struct {
+					own  *MemoryNodeDB
+					db   NodeDB
+					root Key
+				}
+				base := NewMemoryNodeDB()
+				levels := []lvl{{own: base, db: base}}
+				scratch := make([]byte, 0, 16)
+				for i, o := range seq {
+					prev := levels[len(levels)-1]
+					own := NewMemoryNodeDB()
+					db := NewLevelNodeDB(own, prev.db, false)
+					tr := NewMerklePatriciaTrie(db, Sequence(3+i), prev.root, statecache.NewEmpty())
+					scratch = append(scratch[:0], o.path...)
+					if o.del {
+						_, _ = tr.Delete(Path(scratch))
+					} else {
+						_, _ = tr.Insert(Path(scratch), &SecureSerializableValue{Buffer: []byte("a:b")})
+					}
+					for j := range scratch {
+						scratch[j] = 'f'
+					}
+					levels = append(levels, lvl{own: own, db: db, root: tr.GetRoot()})
+				}
+				for li, l := range levels {
+					_ = l.own.Iterate(context.Background(), func(ctx context.Context, key Key, node Node) error {
+						if !bytes.Equal(node.GetHashBytes(), key) {
+							fail("history %v, one level and version per operation: level %d holds a %T under key %x that re-computes to %x (origin %d)", seq, li, node, key, node.GetHashBytes(), node.GetOrigin())
+						}
+						return nil
+					})
+					if len(l.root) == 0 {
+						continue
+					}
+					re := NewMerklePatriciaTrie(l.db, Sequence(3+li), l.root, statecache.NewEmpty())
+					err := re.Iterate(context.Background(), func(ctx context.Context, path Path, key Key, node Node) error {
+						if node == nil {
+							return fmt.Errorf("node %x at %q missing", key, string(path))
+						}
+						if key != nil && !bytes.Equal(node.GetHashBytes(), key) {
+							return fmt.Errorf("node read under key %x at %q re-computes to %x", key, string(path), node.GetHashBytes())
+						}
+						return nil
+					}, NodeTypeLeafNode|NodeTypeFullNode|NodeTypeExtensionNode)
+					if err != nil {
+						fail("history %v, one level and version per operation: the root after operation %d read back through its level: %v", seq, li, err)
+					}
+				}
 			}()
 		}
 		if len(seq) == 3 {
@@ -213,7 +320,7 @@ func TestGocvBoundedC14(t *testing.T) {
 		}
 	}
 	rec(nil)
-	fmt.Printf("GOCV-BOUNDED cases=%d failures=%d scope=\"node shapes: 7 values x 5 paths x 2 prefixes x 3 origins leaves, 17 child subsets x 7 values x 3 origins branches, extensions, value nodes: decode(encode) / clone / put+get in memory, layered, persistent stores; tries: all histories of <= 3 operations over %v re-read from each store kind\"\n", cases, fails, tpaths)
+	fmt.Printf("GOCV-BOUNDED cases=%d failures=%d scope=\"node shapes: 7 values x 5 paths x 2 prefixes x 3 origins leaves, 17 child subsets x 7 values x 3 origins branches, extensions, value nodes, plus a leaf and a branch carrying the largest admissible value (MPTMaxAllowableNodeSize bytes and one less): decode(encode) / CloneNode / Clone / CopyFrom / put+get and batch put+get in memory, layered, persistent stores; tries: all histories of <= 3 operations over %v re-read from each store kind, and once more with one store level, one version and a fresh trie object per operation (paths passed in a scratch buffer that is wiped after each call): every level keeps each node under its own hash, every earlier root stays readable\"\n", cases, fails, tpaths)
 	if fails > 0 {
 		t.Fail()
 	}
